@@ -1,9 +1,11 @@
 #!/bin/bash
-# usage: try_patch.sh <patch file (relative to /verif or absolute)> <prop> [prop...]  — apply to /repo temporarily, run quick checks, revert
+# usage: try_patch.sh <patch file (relative to /verif or absolute)> <prop> [prop...]
+# applies the patch to a scratch copy of /repo's sources and runs the quick checks on the copy; /repo is not touched
 p=$1; shift
 case $p in /*) ;; *) p=/verif/$p;; esac
-sv=$(mktemp -d /tmp/sv.XXXXXX); cp /verif/known_findings.jsonl $sv/
-git -C /repo apply "$p" || exit 3
-for x in "$@"; do (cd /verif && ./bin/xcheck -prop $x -verif $sv 2>&1 | grep -E "^(VIOLATED|UNDECIDED|CHECKER|C[0-9]+ tier)" | cut -c1-${W:-330}); done
-git -C /repo checkout -- . ; git -C /repo clean -fdq -- '*.go'
-rm -rf $sv
+scratch=$(mktemp -d /tmp/try-patch.XXXXXX)
+rsync -a --exclude .git /repo/ $scratch/src/
+mkdir -p $scratch/verif; cp /verif/known_findings.jsonl $scratch/verif/
+(cd $scratch/src && patch -p1 -s --no-backup-if-mismatch -i "$p") || { rm -rf $scratch; exit 3; }
+for x in "$@"; do (cd /verif && ./bin/xcheck -prop $x -repo $scratch/src -verif $scratch/verif 2>&1 | grep -E "^(VIOLATED|UNDECIDED|CHECKER|C[0-9]+ tier)" | sed "s#$scratch/src/##g" | cut -c1-${W:-330}); done
+rm -rf $scratch
